@@ -34,7 +34,8 @@ func Enum(dest *string, allowed ...string) ParserFunc {
 		if len(args) == 0 {
 			return false, args, nil
 		}
-		val := string(args[0])
+		// keywords are case-insensitive, the allowed values are lower case
+		val := strings.ToLower(string(args[0]))
 		if !slices.Contains(allowed, val) {
 			return true, args, ErrSyntaxError
 		}
